@@ -247,6 +247,39 @@ def foreach_clause_action(ss, inside=False):
     return False
 
 
+def opt_weak_start(ss):
+    """open point OP3: an optional whose body does not start with a plain match (a case with an `else` arm, a try, an if, a wait, an
+    action) - whether a byte that only the fall-back would take enters the optional is not settled by the reference"""
+    for s in ss:
+        if s['t'] == 'opt' and s['b']:
+            f = s['b'][0]
+            if _actionish(f) or f['t'] in ('try', 'wait') or (f['t'] == 'case' and any('else' in cl['ps'] for cl in f['cl'])):
+                return True
+        for key in ('b', 'h', 'els'):
+            if isinstance(s.get(key), list) and opt_weak_start(s[key]):
+                return True
+        if s['t'] == 'case' and any(opt_weak_start(cl['b']) for cl in s['cl']):
+            return True
+        if s['t'] == 'if' and any(opt_weak_start(br['b']) for br in s['br']):
+            return True
+    return False
+
+
+def dead_after_break(ss):
+    """a statement directly behind an unconditional break in the same list (unreachable code)"""
+    for i, s in enumerate(ss):
+        if s['t'] == 'break' and i + 1 < len(ss):
+            return True
+        for key in ('b', 'h', 'els'):
+            if isinstance(s.get(key), list) and dead_after_break(s[key]):
+                return True
+        if s['t'] == 'case' and any(dead_after_break(cl['b']) for cl in s['cl']):
+            return True
+        if s['t'] == 'if' and any(dead_after_break(br['b']) for br in s['br']):
+            return True
+    return False
+
+
 def _has_finish(ss):
     return any(s['t'] == 'finish' or (s['t'] == 'if' and (any(_has_finish(br['b']) for br in s['br']) or _has_finish(s.get('els') or []))) for s in ss)
 
@@ -326,7 +359,7 @@ def programs(maxsize, stride=1, offset=0, minsize=1):
                 args.append('-feof-support')
             ast['known_class'] = ('greedy-action-only-early' if greedy_early(b) else 'finish-after-skipped-construct' if lazy_finish_shape(b)
                                   else 'foreach-clause-action-after-each' if foreach_clause_action(b) else None)
-            ast['op8'] = op8_shape(b)
+            ast['op8'] = op8_shape(b) or opt_weak_start(b)
             yield idx, 'enum%d:%d' % (maxsize, idx), ast, genprog.spell_program(ast), args
 
 
@@ -446,6 +479,8 @@ def programs2(maxsize, stride=1, offset=0, minsize=1):
             idx += 1
             if idx % stride != offset % stride:
                 continue
+            if dead_after_break(body):
+                continue                     # (unreachable statements behind an unconditional break: not listed)
             b = copy.deepcopy(list(body))
             b = genprog.avoid_op8(b)
             if not _uses_end(b):
@@ -453,7 +488,7 @@ def programs2(maxsize, stride=1, offset=0, minsize=1):
             ast = dict(copy.deepcopy(DECLS2), macros=[], body=b, args=[])
             args = [LEVELS[(idx // 3) % 4], '-feof-support']
             ast['known_class'] = 'finish-after-skipped-construct' if lazy_finish_shape(b) else None
-            ast['op8'] = op8_shape(b) or input_after_end(b)
+            ast['op8'] = op8_shape(b) or input_after_end(b) or opt_weak_start(b)
             yield idx, 'enumB%d:%d' % (maxsize, idx), ast, genprog.spell_program(ast), args
 
 
